@@ -215,6 +215,17 @@ fn strengthen(c: &Cx, more: bool) -> Vec<(String, Cx, bool)> {
                 n.0.insert(i, (' ', vec!["z".to_string()]));
                 out.push((format!("insert {what} z before compound {i}"), n, false));
             }
+            // an inserted ancestor that looks like one of the selector's own compounds:
+            // the nearer, wrong candidate a matcher must be able to back out of
+            for j in 0..c.0.len() {
+                let mut n = c.clone();
+                let copy = c.0[j].1.clone();
+                n.0.insert(i, (' ', copy));
+                // the inserted compound takes the combinator slot in front of it
+                n.0[i].0 = c.0[i].0;
+                n.0[i + 1].0 = ' ';
+                out.push((format!("insert a copy of compound {j} as ancestor before compound {i}"), n, false));
+            }
         }
     }
     out
